@@ -104,6 +104,7 @@ package ast
 // ---------------------------------------------------------------------------
 
 //@ func (*LoggingListener).printDebug
+//@   trusted debug output only (prints the parse context when PrintRuleLocation is set)
 //@   pure
 //@ func (*Stack).push
 //@   props C10
